@@ -542,13 +542,13 @@ def gen_exhaustive(ctx, cases):
             cases.append(mk_case([0, 1], sw_i(k), [a, _reid(b, 1)], tag="ex2d"))
             k += 1
     notes.append("2 deps of different kinds, <=%d row each, all chunkings into <=%d chunks: complete (%d pairs)" % (r2, c2, k))
-    for (nr, nc, budget) in ([(2, 2, 100000), (2, 3, 30000)] if big else [(1, 3, 3000), (2, 2, 4000)]):
+    for (nr, nc, budget) in ([(2, 2, 60000), (2, 3, 20000)] if big else [(1, 3, 3000), (2, 2, 4000)]):
         fl = flat(nr, nc)
         for _ in range(budget):
             cases.append(mk_case([0, 1], sw_for(rng), [rng.choice(fl), _reid(rng.choice(fl), 1)], tag="ex2d"))
         notes.append("2 deps of different kinds, <=%d rows, <=%d chunks: %d sampled of %d pairs" % (nr, nc, budget, len(fl) ** 2))
     # --- two dependencies of the same kind (the same rows, independent chunkings): complete
-    for (nr, nc) in ([(2, 3), (3, 2)] if big else [(2, 2)]):
+    for (nr, nc) in ([(2, 3)] if big else [(2, 2)]):
         k = 0
         for _rows, chs in configs(nr, nc):
             for a in chs:
@@ -556,6 +556,12 @@ def gen_exhaustive(ctx, cases):
                     cases.append(mk_case([0, 0], sw_i(k), [a, _reid(b, 1)], tag="ex2s"))
                     k += 1
         notes.append("2 deps of one kind (same rows), <=%d rows, all pairs of chunkings into <=%d chunks: complete (%d)" % (nr, nc, k))
+    if big:
+        cf3 = configs(3, 2)
+        for k in range(30000):
+            _rows, chs = rng.choice(cf3)
+            cases.append(mk_case([0, 0], sw_i(k), [rng.choice(chs), _reid(rng.choice(chs), 1)], tag="ex2s"))
+        notes.append("2 deps of one kind (same rows), <=3 rows, <=2 chunks: 30000 sampled of %d" % sum(len(c) ** 2 for _r, c in cf3))
     # --- three dependencies, one or two kinds; same-kind dependencies mostly share their rows
     pats = kind_patterns(3, 2)
     cf = configs(1, 2)
